@@ -864,7 +864,7 @@ def build_ann(t, env):
     return TM.build_std(op, t, a)
 
 
-def conv_event(out, t, vars_, ctx, stats, solver=False, keep=None):
+def conv_event(out, t, vars_, ctx, stats, solver=False, keep=None, truth=True):
     """vars_: [[name, w, tuple-or-None]]"""
     import claripy
     env = {n: var_ast(n, w, si) for n, w, si in vars_}
@@ -884,7 +884,7 @@ def conv_event(out, t, vars_, ctx, stats, solver=False, keep=None):
         stats["unsupported"] = stats.get("unsupported", 0) + 1
         return
     ev = {"k": "conv", "op": t[0], "t": t, "vars": vv, "rt": "si", "R": [], "rb": [1, 1], "exc": exc, "how": "convert",
-          "cls": 0, "ctx": ctx, "sv_on": 0, "sv_eval": [], "sv_mm": [], "sv_exc": ""}
+          "cls": 0, "ctx": ctx, "sv_on": 0, "sv_eval": [], "sv_mm": [], "sv_exc": "", "tq": []}
     if not exc:
         kind, payload = value(r)
         if kind == "si":
@@ -911,6 +911,30 @@ def conv_event(out, t, vars_, ctx, stats, solver=False, keep=None):
             ev["sv_on"] = 1
             ev["sv_eval"] = [I(v) for v in vals]
             ev["sv_mm"] = [I(mn), I(mx)] if mn is not None and mx is not None else []
+    if truth and not ev["exc"] and ev["rt"] == "bool" and ast.op not in ("BoolV",):
+        # truth queries on the backend-wide caches, in both orders, each followed by the solver queries
+        # tq row = [order, is_true, is_false, satisfiable(extra=[c]), satisfiable() after add(c), eval has True]
+        be = claripy.backends.vsa
+
+        def b(f):
+            e_, v = guarded(f)
+            return -1 if e_ else (1 if v else 0)
+        for order in (0, 1):
+            be.downsize()                      # both orders start from empty is_true / is_false caches
+            s1, s2 = claripy.SolverVSA(), claripy.SolverVSA()
+            if order == 0:
+                it = b(lambda: s1.is_true(ast))
+                if_ = b(lambda: be.is_false(ast))
+            else:
+                if_ = b(lambda: s1.is_false(ast))
+                it = b(lambda: be.is_true(ast))
+            sat1 = b(lambda: s2.satisfiable(extra_constraints=[ast]))
+            e_, _ = guarded(lambda: s1.add(ast))
+            sat2 = b(lambda: s1.satisfiable()) if not e_ else -1
+            e_, vals = guarded(lambda: s2.eval(ast, 2))
+            evt = -1 if e_ else (1 if True in vals else 0)
+            ev["tq"].append([order, it, if_, sat1, sat2, evt])
+        be.downsize()
     rewritten = (not exc) and TM.ser(ast) != t
     out.write(ev, nontrivial_key=[t, vv], outcome=(ev["exc"] or "ok"),
               sample={"t": t, "vars": vv, "rt": ev["rt"], "R": ev["R"], "rb": ev["rb"]})
